@@ -37,6 +37,42 @@ pub fn scenarios(ctx: &Ctx) -> Vec<Case> {
         }
         push(c);
     }
+    // error paths are where order dependence hides (several diagnostics compete): every source also
+    // runs with a few seed-drawn storage corruptions of the script or of one of its mapfiles
+    let n_corrupt = if ctx.tier == Tier::Quick { 1 } else { 6 };
+    for item in scen::source_items(&ctx.corpus) {
+        let base = scen::compile_case(item, true);
+        let mut r = crate::rng::Rng::new(rng::mix(ctx.seed, &item.id, 190));
+        for j in 0..n_corrupt {
+            let attackable: Vec<usize> = base.inputs.iter().enumerate().filter(|(_, i)| matches!(i.base, crate::case::Base::Text(_))).map(|(k, _)| k).collect();
+            let ii = *r.pick(&attackable);
+            let data = match &base.inputs[ii].base {
+                crate::case::Base::Text(t) => t.as_bytes().to_vec(),
+                _ => continue,
+            };
+            if data.is_empty() {
+                continue;
+            }
+            let all = crate::corrupt::text_faults(&data, &[]);
+            let f = r.pick(&all).clone();
+            let mut c = base.clone();
+            c.inputs[ii].corrupt = f.ops;
+            c.name = format!("{} [corrupt#{} {}@{} of {}]", c.name, j, f.kind, f.off, c.inputs[ii].path);
+            push(c);
+        }
+    }
+    // extract: order of 'exported' lines and of files
+    for item in ctx.corpus.binaries().filter(|b| b.cmd == "truanm" && b.id.starts_with("res/")) {
+        let path = item.path.clone().unwrap();
+        push(Case {
+            property: String::new(),
+            oracle: String::new(),
+            name: format!("extract:{}", item.id),
+            inputs: vec![crate::case::Input::tree("map/"), crate::case::Input::corpus(&path)],
+            steps: vec![crate::case::Step::new(vec!["truanm".into(), "extract".into(), "-g".into(), item.game.clone(), path.clone(), "-o".into(), "ext".into()])],
+            meta: json!({}),
+        });
+    }
     for item in ctx.corpus.binaries() {
         push(scen::binary_roundtrip_case(item, &[], None, true));
         push(scen::binary_roundtrip_case(item, &[], None, false));
